@@ -630,7 +630,7 @@ class Interp {
         const MExp& e = m.E.at(xt.eid);
         for (size_t i = 0; i < used.size() && !f; ++i) {
           auto& t = real::g_log.traces[i];
-          if (used[i] || t.tracer != xt.tracer) continue;
+          if (used[i] || (t.tracer != xt.tracer && t.tracer != xt.alt_tracer)) continue;
           if (eid_at(t.file, t.line) != xt.eid && !(e.saturated && !e.alive)) continue;
           if (t.text.find(exp_text_piece(e)) == std::string::npos) continue;
           used[i] = true; f = true;
@@ -652,6 +652,7 @@ class Interp {
           }
           if (!good) mismatch(CAT_TRACE, "trace record of call handled by " + std::to_string(xt.eid) + ": " + why + "\n--- text ---\n" + t.text);
         }
+        if (!f && xt.optional_) { res.tolerant++; continue; }
         if (!f) mismatch(CAT_TRACE, "no trace record for accepted call handled by " + std::to_string(xt.eid) + " on tracer " + std::to_string(xt.tracer) + " (" + std::to_string(real::g_log.traces.size()) + " records)");
       }
       size_t extra = 0;
